@@ -43,6 +43,8 @@ impl<'i, 't, 'a> StepParser<'i, 't, 'a> {
     pub(crate) fn peek_including_whitespace(
         &mut self,
     ) -> Result<StepToken<'i>, BasicParseError<'i>> {
+        #[cfg(feature = "verif_hooks")]
+        crate::verif_hooks::step();
         let position = self.position();
         let state = self.parser.state();
         let ret = self.parser.next_including_whitespace().map(|x| x.clone());
@@ -58,6 +60,8 @@ impl<'i, 't, 'a> StepParser<'i, 't, 'a> {
     pub(crate) fn next_including_whitespace(
         &mut self,
     ) -> Result<StepToken<'i>, BasicParseError<'i>> {
+        #[cfg(feature = "verif_hooks")]
+        crate::verif_hooks::step();
         let position = self.position();
         let token = self.parser.next_including_whitespace().map(|x| x.clone())?;
         Ok(StepToken { token, position })
